@@ -140,6 +140,30 @@ def clause1(P, res):
                 res.unclassified(rid, key, f"direct read of CacheEntry.value at {e.loc} outside the accessor", where=e.loc)
 
 
+
+def expired_filter_collects(P, f):
+    """[(collect call event, filter call event, closure body)] in body f: a collection built by `collect()` from an iterator chain that passes through
+    `Iterator::filter` with a closure whose result is is_expired(..) of the element (the chain is lazy: the tests run when `collect` runs)."""
+    out = []
+    for c in f.calls():
+        if c.method != "collect" or "Iterator" not in c.callee or not c.args:
+            continue
+        evs, _, _ = mir.operand_sources(f, c.args[0])
+        for x in evs:
+            if x.kind == "call" and x.method == "filter" and "Iterator" in x.callee and len(x.args) > 1:
+                cp = f.path_of_operand(x.args[1])
+                cb = P.body(cp[len("closure:"):]) if cp.startswith("closure:") else None
+                if cb is None:
+                    continue
+                tests = [t for t in cb.calls() if cl.is_expired_call(t)]
+                rets = [r for r in cb.events if r.kind == "assign" and r.data["p"] == [0, []]] + [r for r in cb.calls() if r.data["d"] == [0, []]]
+                # the closure keeps exactly the expired ones: its return value is the (un-negated) result of is_expired
+                direct = any(t.data["d"][0] == 0 for t in tests) or any(r.kind == "assign" and r.data["r"]["k"] == "use" and cb.producer_call(r.data["r"]["o"]) in tests for r in rets)
+                if tests and direct:
+                    out.append((c, x, cb))
+    return out
+
+
 def clause2(P, res):
     rid = "C12-2"
     res.rule(rid, "removals reported as Expired are justified by the deadline: every site that notifies EvictionReason::Expired or bumps "
@@ -197,6 +221,20 @@ def clause2(P, res):
                                 some = cl.result_switch_edges(b, r, "Some")
                                 if some and b.edges_dominate(some, e.pos):
                                     ok, why = True, f"victims `{vec}` are only pushed on the expired edge ({push.loc}); this site is on the Some edge of their removal"
+            if not ok:
+                # via a victim list built by `collect()` behind `filter(|e| e.is_expired(..))`
+                for f in fam:
+                    for col, flt, cb in expired_filter_collects(P, f):
+                        vec_local = col.data["d"][0]
+                        al = mir.alias_locals(f, vec_local)
+                        for r in cl.map_events(b, {"remove", "remove_entry"}):
+                            evs, _, _ = mir.operand_sources(b, r.args[1]) if len(r.args) > 1 else ([], set(), [])
+                            from_vec = any((x.kind == "call" and any((mir.op_place(a) or [None])[0] in al for a in x.args)) or
+                                           (x.kind == "assign" and x.data["r"]["k"] in ("ref", "use") and ((x.data["r"].get("p") or mir.op_place(x.data["r"].get("o")) or [None])[0] in al))
+                                           for x in evs) if f is b else False
+                            some = cl.result_switch_edges(b, r, "Some")
+                            if from_vec and some and b.edges_dominate(some, e.pos):
+                                ok, why = True, f"victims are collected behind filter(is_expired) at {flt.loc}; this site is on the Some edge of their removal"
             results.append((ok, e, what, why))
         key = f"{b.id}:expired-removal"
         bad = [r for r in results if not r[0]]
@@ -373,6 +411,7 @@ def clause8(P, res):
     n = 0
     for b in cl.cache_bodies(P):
         ex = [e for e in b.calls() if cl.is_expired_call(e)]
+        ex += [col for col, flt, cb in expired_filter_collects(P, b)]  # lazy chain: the tests run where `collect` runs
         rm = cl.map_events(b, {"remove", "remove_entry", "retain"})
         if not ex or not rm:
             continue
